@@ -210,6 +210,8 @@ class OFolder(Folder):
                 return cache.setdefault((v.name, attr), EnumMember(v.name, attr))
             raise FoldedRaise("AttributeError", "%s.%s" % (v.name, attr))
         if isinstance(v, ClassRef):
+            if attr in ("__name__", "__qualname__"):
+                return v.name
             f = self.src.resolve_method(v.mod, v.name, attr)
             if f is not None:
                 return ClassFunc(f)
@@ -503,6 +505,8 @@ class OFolder(Folder):
         if f in (list, tuple, sorted, set, frozenset, enumerate, zip, reversed, max, min, "".join.__class__) or \
                 getattr(f, "__name__", "") in ("join", "append", "extend", "get", "items", "keys", "values", "update", "format", "chain"):
             # containers of objects are fine for structural builtins
+            if f in (list, tuple, sorted, set, frozenset, enumerate, zip, reversed):
+                args = [self.v_iter(a) if isinstance(a, Obj) and a.payload is None else a for a in args]
             try:
                 r = f(*args, **kw)
             except TypeError as e:
